@@ -20,6 +20,8 @@ def run(prog, rep, tier):
     apply(rep, "B2", "no unwinding out of entry points without error parameter", r_api.b2(prog), 60)
     apply(rep, "B3", "the parse tree is handed out only on yyparse success", r_api.b3(prog), 1)
     apply(rep, "T1", "no exception object is constructed and discarded", r_api.t1(prog), 1)
+    import r_core
+    apply(rep, "P2c", "stack accessors raise the underflow error exactly when they would reach below the bottom", r_core.p2c(prog), 5)
     apply(rep, "Y1", "scanner completeness", r_lex.y1(prog), 4)
     apply(rep, "K3", "CLI maps every exception to exit status 2", r_cli.k3(prog), 10)
     maybe_mutants("C14", rep, tier)
